@@ -165,15 +165,15 @@ PLAN['C11'] = {
     'legs': [leg_verus('alloc'), leg_verus('simplify'), leg_verus('interval'), leg_verus('vm'), leg_verus('shape'), leg_verus('varmap'), leg_verus('jit'), leg_kani('leaf'), leg_bounded('interp_interval'), leg_bounded('interval_sweep'), leg_bounded('total'), leg_bounded('jit_interval_valid')],
     'cex': ['total', 'interp_interval', 'interval_sweep', 'alloc_cex', 'simplify_sem'],
     'explanation': 'Totality of the integer state machines is a corollary of their total-mode proofs; the genuine defect found here (Interval add/sub/scale panicking on NaN bounds) is repaired in /repo (fix: 081f714).',
-    'assumptions': ['sqrt/square/recip/mul/div/trig totality of Interval: bounded leg only (CBMC models sqrtf/powi nondeterministically; one f32 division does not finish)'],
+    'assumptions': ['square/trig/atan2/rem_euclid totality of Interval: bounded leg only (CBMC models sqrtf/powi nondeterministically); Mul<Interval>/Div<Interval>/sqrt/recip totality is proved in unit interval under the float axioms'],
 }
 del NOT_APPLICABLE['C11']
 
 PLAN['C03'] = {
     'level': 'proof',
     'technique': 'Kani full-domain harnesses for local interval enclosure of comparison/select operations; bounded native contract runner (interval interpreter vs reference point semantics) for arithmetic and transcendental operations',
-    'level_text': 'Proved for all intervals and all member points (Kani, bit-precise, loop-free): min, max, and, or, not, compare, abs, neg enclose the point result, with the NaN-interval convention. Proved in Verus on the real text under the stated float axioms (monotone correctly-rounded + - *, NaN propagation, total order): Add, Sub, Mul<f32>, Neg are total on all valid intervals and enclose exactly (0 ulp). The interpreter dispatch is proved (unit vm: VmIntervalEval::eval applies, for every RegOp variant, the Interval method of that name to the right operands in the right order and writes the right slot). The remaining arithmetic and transcendental operations and the JIT are bounded stand-ins on a stated grid.',
-    'level_note': 'Trusted: Kani/CBMC, Verus+Z3 with the float axioms of unit interval. Bounded only: mul, div, square, trig, atan2, rem_euclid, mix, rand; JIT; the composition of per-operation enclosure over a whole tape is mechanised for an abstract relation (unit vm, lemma_enc_run); that each real operation respects the real relation is established per operation by the other legs (known findings K1, K4 are where it does not). Out of scope: wgsl shader.',
+    'level_text': 'Proved for all intervals and all member points (Kani, bit-precise, loop-free): min, max, and, or, not, compare, abs, neg enclose the point result, with the NaN-interval convention. Proved in Verus on the real text under the stated float axioms (monotone correctly-rounded + - *, NaN propagation, total order): Add, Sub, Mul<f32>, Neg and the monotone unary functions exp, atan, sqrt, ln, recip, floor, ceil, round are total on all valid intervals and enclose exactly (0 ulp); Mul<Interval> and Div<Interval> (the four corner products / quotients, unrolled by R-unroll, proof woven into the real text) are total on all valid intervals including infinite bounds and NaN corners, and enclose the product / quotient of members whenever the four bounds are finite (for Div: and the divisor interval excludes zero, otherwise the NaN interval is returned) - with an infinite bound a 0*inf corner is NaN and f32::min/max drop it, which is known finding K4, so nothing is claimed there. The interpreter dispatch is proved (unit vm: VmIntervalEval::eval applies, for every RegOp variant, the Interval method of that name to the right operands in the right order and writes the right slot). The remaining arithmetic and transcendental operations and the JIT are bounded stand-ins on a stated grid.',
+    'level_note': 'Trusted: Kani/CBMC, Verus+Z3 with the float axioms of unit interval. Axioms added for Mul/Div: ax_minmax (f32::min/max ignore a NaN operand, otherwise return one operand in order), ax_fin, ax_mul_fin, ax_div_fin (finite operands give a number), ax_mul_comm, ax_div (total), ax_div_mono (monotone in the numerator for a divisor of one sign, antitone/monotone in the divisor on one side of zero). Bounded only: square, trig, atan2, rem_euclid, mix, rand; Mul/Div with infinite bounds; JIT; the composition of per-operation enclosure over a whole tape is mechanised for an abstract relation (unit vm, lemma_enc_run); that each real operation respects the real relation is established per operation by the other legs (known findings K1, K4 are where it does not). Out of scope: wgsl shader.',
     'legs': [leg_kani('leaf'), leg_verus('interval'), leg_verus('vm'), leg_verus('shape'), leg_bounded('interp_interval'), leg_bounded('interval_sweep'), leg_bounded('jit_interval'), leg_bounded('shape_transform')],
     'cex': ['interp_interval', 'interval_sweep'],
     'explanation': 'The local obligation per opcode is exactly the observation the property names: a in A, b in B => op(a,b) in OP(A,B) unless NaN.',
